@@ -161,6 +161,13 @@ IsTarget(o, e) == /\ e # <<>>
                   /\ e[1].size = ToString(FSLenOf(o.data))
                   /\ e[1].meta = (IF Has(o, "meta") THEN o.meta ELSE "null") /\ e[1].raw = "none"
 
+\* the entry a keyed link_to of the external file o.target is making current (sha256 of its bytes)
+IsLinkTarget(o, e) == /\ e # <<>> /\ o.target \in DOMAIN ext
+                      /\ e[1].key = o.key
+                      /\ e[1].sri = << [a |-> "sha256", d |-> ext[o.target]] >>
+                      /\ e[1].size = ToString(FSLenOf(ext[o.target]))
+                      /\ e[1].meta = "null" /\ e[1].raw = "none"
+
 KeysOfRun == { k \in DOMAIN buckets \cup DOMAIN pre.buckets : TRUE }
 MutatedKey(k) == \E p \in DOMAIN ops : Has(ops[p], "key") /\ ops[p].key = k
                                        /\ ops[p].op \in {"write", "remove", "remove_fully", "index_insert", "link_to"}
@@ -173,6 +180,7 @@ CrashAtomic ==
             \/ \E p \in DOMAIN ops :
                   /\ Has(ops[p], "key") /\ ops[p].key = k
                   /\ \/ (ops[p].op = "write" /\ IsTarget(ops[p], Lookup(k)))
+                     \/ (ops[p].op = "link_to" /\ IsLinkTarget(ops[p], Lookup(k)))
                      \/ (ops[p].op \in {"remove", "remove_fully"} /\ Lookup(k) = <<>>)
 
 \* C13: a call that met an injected fault returns an error or a truthful success
@@ -183,6 +191,8 @@ Truthful(p) ==
     ELSE CASE o.op = "write" ->
                 /\ BytesAt([a |-> o.algo, d |-> o.data]) = o.data
                 /\ Has(o, "key") => IsTarget(o, Lookup(o.key))
+           [] o.op = "link_to" ->
+                Has(o, "key") => IsLinkTarget(o, Lookup(o.key))
            [] o.op = "read" ->
                 (Has(o, "key") /\ PreLookup(o.key) # <<>>) =>
                     \E i \in 1..Len(PreLookup(o.key)[1].sri) : r.v = PreLookup(o.key)[1].sri[i].d
